@@ -287,7 +287,7 @@ def year_long_case(rng, profile):
     from ..domain import CROP_INFO  # noqa: F401
     case = std_case(rng, dict(profile, crops=["SugarCane", "SugarCane", "SugarCane", "Cassava", "AlfalfaGDD"], n_seasons=[2, 3, 4], off_season_p=0.75,
                               start_rel=["at", "at", "before"], end_kinds=["after", "eoy", "harvestish"], sensible_planting_p=0.9,
-                              irr_methods=[1, 1, 2, 3, 5, 4, 0], events_per_year=0.3, leap_end_p=0.0))
+                              irr_methods=[1, 1, 2, 2, 5, 5, 3, 4, 0], events_per_year=0.3, leap_end_p=0.0))
     crop = case["spec"]["crop"]
     if crop["name"] != "AlfalfaGDD":
         m, d = [int(x) for x in crop["planting_date"].split("/")]
@@ -295,4 +295,6 @@ def year_long_case(rng, profile):
         crop["harvest_date"] = f"{h.month:02d}/{h.day:02d}"
         if case["spec"]["irr"]["method"] == 1:
             case["spec"]["irr"]["kwargs"]["SMT"] = [70, 70, 70, 70]
+        # touching seasons exist only when the days between them are simulated
+        case["spec"]["off_season"] = rng.random() < 0.85
     return case
